@@ -16,8 +16,11 @@ void fiber_mark_completed(fiber_t* the_fiber, void* result) {
   atomic_store_explicit(&the_fiber->result, result, memory_order_release);
 
   if (the_fiber->detach_state != FIBER_DETACH_DETACHED) {
-    const int old_state =
-        atomic_exchange(&the_fiber->detach_state, FIBER_DETACH_WAIT_FOR_JOINER);
+    // only NONE moves to WAIT_FOR_JOINER: a registered joiner (WAIT_TO_JOIN) or
+    // a detach must stay visible to everybody else
+    int old_state = FIBER_DETACH_NONE;
+    atomic_compare_exchange_strong(&the_fiber->detach_state, &old_state,
+                                   FIBER_DETACH_WAIT_FOR_JOINER);
     if (old_state == FIBER_DETACH_NONE) {
       // need to wait until another fiber joins this one
       fiber_manager_set_and_wait(fiber_manager_get(),
@@ -135,8 +138,18 @@ int fiber_join(fiber_t* f, void** result) {
     return FIBER_ERROR;
   }
 
-  const int old_state =
-      atomic_exchange(&f->detach_state, FIBER_DETACH_WAIT_TO_JOIN);
+  // only NONE and WAIT_FOR_JOINER move to WAIT_TO_JOIN: a detached fiber or
+  // one that already has a joiner keeps its state
+  int old_state = FIBER_DETACH_NONE;
+  if (!atomic_compare_exchange_strong(&f->detach_state, &old_state,
+                                      FIBER_DETACH_WAIT_TO_JOIN)) {
+    if (old_state != FIBER_DETACH_WAIT_FOR_JOINER ||
+        !atomic_compare_exchange_strong(&f->detach_state, &old_state,
+                                        FIBER_DETACH_WAIT_TO_JOIN)) {
+      // it's either WAIT_TO_JOIN or DETACHED - that's an error!
+      return FIBER_ERROR;
+    }
+  }
   if (old_state == FIBER_DETACH_NONE) {
     // need to wait till the fiber finishes
     fiber_manager_t* const manager = fiber_manager_get();
@@ -155,9 +168,6 @@ int fiber_join(fiber_t* f, void** result) {
         fiber_manager_get(), (_Atomic(void*)*)&f->join_info);
     to_schedule->state = FIBER_STATE_READY;
     fiber_manager_schedule(fiber_manager_get(), to_schedule);
-  } else {
-    // it's either WAIT_TO_JOIN or DETACHED - that's an error!
-    return FIBER_ERROR;
   }
 
   return FIBER_SUCCESS;
@@ -178,9 +188,9 @@ int fiber_tryjoin(fiber_t* f, void** result) {
     // state, then we can go ahead and wake it up. if the fiber's state has
     // changed, we can assume the fiber has been detached or has be joined by
     // some other fiber
-    const int old_state =
-        atomic_exchange(&f->detach_state, FIBER_DETACH_WAIT_TO_JOIN);
-    if (old_state == FIBER_DETACH_WAIT_FOR_JOINER) {
+    int old_state = FIBER_DETACH_WAIT_FOR_JOINER;
+    if (atomic_compare_exchange_strong(&f->detach_state, &old_state,
+                                       FIBER_DETACH_WAIT_TO_JOIN)) {
       // the other fiber is waiting for us to join
       if (result) {
         *result = f->result;
@@ -205,18 +215,21 @@ int fiber_detach(fiber_t* f) {
   if (!f) {
     return FIBER_ERROR;
   }
-  const int old_state =
-      atomic_exchange(&f->detach_state, FIBER_DETACH_DETACHED);
-  if (old_state == FIBER_DETACH_WAIT_FOR_JOINER ||
-      old_state == FIBER_DETACH_WAIT_TO_JOIN) {
-    // wake up the fiber or the fiber trying to join it (this second case is a
-    // convenience, pthreads specifies undefined behaviour in that case)
+  // only NONE and WAIT_FOR_JOINER move to DETACHED: a fiber that has a joiner
+  // (WAIT_TO_JOIN) or is already detached cannot be detached
+  int old_state = FIBER_DETACH_NONE;
+  if (!atomic_compare_exchange_strong(&f->detach_state, &old_state,
+                                      FIBER_DETACH_DETACHED)) {
+    if (old_state != FIBER_DETACH_WAIT_FOR_JOINER ||
+        !atomic_compare_exchange_strong(&f->detach_state, &old_state,
+                                        FIBER_DETACH_DETACHED)) {
+      return FIBER_ERROR;
+    }
+    // the fiber has finished and waits for a joiner: wake it up
     fiber_t* const to_schedule = fiber_manager_clear_or_wait(
         fiber_manager_get(), (_Atomic(void*)*)&f->join_info);
     to_schedule->state = FIBER_STATE_READY;
     fiber_manager_schedule(fiber_manager_get(), to_schedule);
-  } else if (old_state == FIBER_DETACH_DETACHED) {
-    return FIBER_ERROR;
   }
   return FIBER_SUCCESS;
 }
